@@ -61,7 +61,7 @@ pub fn run(ctx: &Arc<Ctx>) {
     refmodels::selftest::run(&["sm3", "sm2"]).unwrap_or_else(|e| ctx.machinery_error(format!("reference self-test failed: {}", e)));
     let n = sm2::params().n.clone();
     let p = sm2::params().p.clone();
-    ctx.set_rule("for each base signature (quick 12, thorough 60: keys x nonces x IDs x messages from the C03 alphabets, made by the reference signer): all 512 single-bit flips of r||s; r,s substituted by {0,1,n-1,n,n+1,2^256-1}, s=n-r, swapped; message bit flipped / byte appended / truncated; ID changed; key replaced by another key and by -P; every signature length 0..=130 as prefix/extension and constant fills; plus the product RxS of a 12-element boundary alphabet. Oracle: the reference verifier (and 'exactly 64 bytes'); library must return Err whenever it rejects — never Ok, never a panic — and Ok when it accepts.");
+    ctx.set_rule("for each base signature (quick 12, thorough 60: keys x nonces x IDs x messages from the C03 alphabets, made by the reference signer): all 512 single-bit flips of r||s; r,s substituted by {0,1,n-1,n,n+1,2^256-1}, s=n-r, swapped; message bit flipped / byte appended / truncated; ID changed; key replaced by another key and by -P; every signature length 0..=130 as prefix/extension and constant fills; plus the product RxS of a 12-element boundary alphabet; pre-searched signatures with r or s below 2^224 and their r+n / s+n aliases. Oracle: the reference verifier (and 'exactly 64 bytes'); library must return Err whenever it rejects — never Ok, never a panic — and Ok when it accepts.");
     let ds = scalar_alphabet(&n, ctx.seed, "c04d", 2);
     let ks = scalar_alphabet(&n, ctx.seed, "c04k", 1);
     let nbase = ctx.tier.pick(12usize, 60);
@@ -153,9 +153,93 @@ pub fn run(ctx: &Arc<Ctx>) {
             }
         }
     }
+    // pre-searched signatures with r < 2^224 or s < 2^224: the only ones whose r+n / s+n alias fits in 32 bytes
+    let mut small: Vec<Value> = Vec::new();
+    for f in ["sm2_small_rs.json", "sm2_small_rs_agent.json"] {
+        small.extend(std::fs::read_to_string(format!("{}/corpus/{}", VERIF_ROOT, f)).ok().and_then(|s| serde_json::from_str::<Value>(&s).ok()).and_then(|v| v.as_array().cloned()).unwrap_or_default());
+    }
+    if small.is_empty() {
+        ctx.machinery_error("corpus/sm2_small_rs.json missing or empty");
+    }
+    let two224: BigUint = BigUint::one() << 224usize;
+    for e in &small {
+        let (pkh, msg) = (e["pub"].as_str().unwrap().to_string(), hex::decode(e["msg"].as_str().unwrap()).unwrap());
+        let (r, s) = (hb(e["r"].as_str().unwrap()), hb(e["s"].as_str().unwrap()));
+        let kind = e["kind"].as_str().unwrap();
+        let mk = |sig: String, label: &str| Case { pk: pkh.clone(), id: None, msg: hex::encode(&msg), sig, label: label.to_string() };
+        cases.push(mk(sig_bytes(&r, &s), "valid"));
+        if r < two224 {
+            cases.push(mk(sig_bytes(&(&r + &n), &s), "r+n-alias"));
+        }
+        if s < two224 {
+            cases.push(mk(sig_bytes(&r, &(&s + &n)), "s+n-alias"));
+        }
+        if !(r < two224 || s < two224) {
+            ctx.machinery_error(format!("corpus entry {} has no small component", kind));
+        }
+    }
+    ctx.cov("small_component_signatures", serde_json::json!(small.len()));
     ctx.note_bound(format!("{} base signatures, {} cases", nbase, cases.len()));
     ctx.sample(serde_json::to_value(&cases[1]).unwrap());
     ctx.sample(serde_json::to_value(&cases[cases.len() - 1]).unwrap());
     run_cases(ctx, &cases, 16, eval);
     let _ = hb;
+}
+
+/// one-off build-time tool: search messages whose signature under (Annex d, Annex k) has r < 2^224 or
+/// s < 2^224, so that r+n / s+n still fit in 32 bytes (the only unreduced aliases of a valid component).
+/// Every hit is re-validated by the reference verifier on every run.
+pub fn search_small_components() {
+    use rayon::prelude::*;
+    use std::sync::atomic::{AtomicBool, AtomicU64, Ordering};
+    let pr = sm2::params();
+    let n = pr.n.clone();
+    let d = hb(crate::alpha::ANNEX_D);
+    let k = hb(crate::alpha::ANNEX_K);
+    let pk = sm2::g_mul(&d);
+    let za = sm2::za(sm2::DEFAULT_ID, &pk);
+    let x1 = sm2::g_mul(&k).unwrap().0;
+    let inv1d = (BigUint::one() + &d).modpow(&(&n - 2u32), &n);
+    // s = inv1d * (k - r d) ; r = e + x1
+    let bound: BigUint = BigUint::one() << 224usize;
+    let found_r = AtomicU64::new(0);
+    let found_s = AtomicU64::new(0);
+    let stop = AtomicBool::new(false);
+    let out = std::sync::Mutex::new(Vec::<Value>::new());
+    let chunk: u64 = 1 << 22;
+    (0..(1u64 << 12)).into_par_iter().for_each(|c| {
+        if stop.load(Ordering::Relaxed) {
+            return;
+        }
+        let mut base = refmodels::sm3::Sm3::new();
+        base.update(&za);
+        for i in 0..chunk {
+            let ctr = c * chunk + i;
+            let msg = format!("order #{}", ctr);
+            let mut h = base.clone();
+            h.update(msg.as_bytes());
+            let e = refmodels::util::from_be(&h.finish());
+            let r = (&e + &x1) % &n;
+            let small_r = r < bound;
+            let mut small_s = false;
+            // cheap pre-filter is not possible for s: one modular product per trial
+            let s = (&inv1d * ((&k + &n * &n - (&r * &d)) % &n)) % &n;
+            if s < bound {
+                small_s = true;
+            }
+            if (small_r || small_s) && !r.is_zero() && !s.is_zero() && (&r + &k) != n {
+                let kind = if small_r { "small-r" } else { "small-s" };
+                let cnt = if small_r { found_r.fetch_add(1, Ordering::Relaxed) } else { found_s.fetch_add(1, Ordering::Relaxed) };
+                if cnt < 2 {
+                    out.lock().unwrap().push(serde_json::json!({"kind": kind, "pub": hex::encode(sm2::encode_point(&pk, false)), "msg": hex::encode(msg.as_bytes()), "r": hexbig(&r), "s": hexbig(&s)}));
+                    eprintln!("found {} at {}", kind, ctr);
+                    let _ = std::fs::write(format!("{}/corpus/sm2_small_rs.json", VERIF_ROOT), serde_json::to_string_pretty(&*out.lock().unwrap()).unwrap());
+                }
+                if found_r.load(Ordering::Relaxed) >= 1 && found_s.load(Ordering::Relaxed) >= 1 {
+                    stop.store(true, Ordering::Relaxed);
+                    return;
+                }
+            }
+        }
+    });
 }
